@@ -1,4 +1,666 @@
+//! C10 — BCF typed encoding round-trips every value and carries the same content as VCF.
+//!
+//! E1 (the C09 record grammar widened with width boundaries, reserved NaN payloads, 14/15/16-byte
+//! strings, 15/16-element vectors, big allele indices, IDX modes) + E3 (all (min,max) pairs of the
+//! integer boundary set in seven vector contexts).
+//! Oracles: the generated value; an independent BCF2 parser written from the specification
+//! (`gvcf::bcfraw`: framing, dictionaries from the embedded header text, typed values, padding);
+//! noodles' eager reader; the lazy `bcf::Record` accessors; VCF text renderings.
+
+use std::sync::Mutex;
+
+use gvcf::{
+    bcfraw::{self, IntEl, RawVec},
+    cmp::{FloatMode, diff_rec},
+    gen_::{self, BASE_NAMES, BASE_SAMPLES, Env, FILE_FORMATS, Generated, IdxMode, N_BASES, Purpose},
+    io::{self, Fail},
+    model::{Expect, Hdr, Rec, Val},
+};
+use noodles_vcf as vcf;
+use vmc::{Chooser, Config, Outcome, Violation};
+
+fn fail_violation(stage: &str, f: &Fail, hint: &str, decoded: String, expected: &str) -> Violation {
+    match f {
+        Fail::Panic { .. } => Violation::new(format!("stage={stage} {}", f.panic_fp()), decoded, "no panic (Ok or Err)", f.text()),
+        Fail::Err(_) => Violation::new(format!("stage={stage} symptom=rejected cause={hint}"), decoded, expected, f.text()),
+    }
+}
+
+/// Strips what the domain rules call equal in text: trailing `:.` of a sample column.
+fn norm_line(line: &[u8]) -> String {
+    let s = String::from_utf8_lossy(line);
+    let s = s.trim_end_matches('\n');
+    let cols: Vec<&str> = s.split('\t').collect();
+    let mut out: Vec<String> = Vec::new();
+    for (i, c) in cols.iter().enumerate() {
+        if i >= 9 {
+            // an empty column is C09's D10 (a sample without values); not re-reported here
+            let c: &str = if c.is_empty() { "." } else { c };
+            let mut parts: Vec<&str> = c.split(':').collect();
+            while parts.len() > 1 && parts.last() == Some(&".") {
+                parts.pop();
+            }
+            let joined = parts.join(":");
+            out.push(if joined.is_empty() { ".".to_string() } else { joined });
+        } else {
+            out.push(c.to_string());
+        }
+    }
+    out.join("\t")
+}
+
+trait Tagger {
+    fn tag(&self, t: &'static str);
+}
+impl Tagger for Chooser {
+    fn tag(&self, t: &'static str) {
+        Chooser::tag(self, t)
+    }
+}
+
+/// Shapes that, when present, are the likeliest reason for a failure (priority order).
+const SUSPECT: [&str; 24] = [
+    "nan-reserved-eov",
+    "nan-reserved-other",
+    "nan-reserved-missing",
+    "comma",
+    "lone-dot",
+    "percent-sequence",
+    "missing-allele-phased",
+    "allele-127",
+    "allele-126",
+    "allele-63",
+    "allele-62",
+    "end<pos",
+    "telomere-0",
+    "missing",
+    "end-missing",
+    "svlen-missing",
+    "single-missing",
+    "int-reserved",
+    "i8-sentinel-value",
+    "i16-sentinel-value",
+    "i8-eov-value",
+    "i16-eov-value",
+    "contig-not-in-header",
+    "pos-max",
+];
+
+/// A class-level description of the input feature most likely responsible, computed from the
+/// record itself (genotype ploidies, all-missing integer-vector columns) or from the generator's
+/// shape labels. Used where no differing field is known (malformed bytes, rejected reads).
+fn cause_hint(g: &Generated, hdr: &Hdr) -> String {
+    let r = &g.rec;
+    if r.format.first().map(|k| k == "GT").unwrap_or(false) {
+        let lens: Vec<Option<usize>> = r
+            .samples
+            .iter()
+            .map(|s| match s.first() {
+                Some(Some(Val::Gt(a))) => Some(a.len()),
+                _ => None,
+            })
+            .collect();
+        if lens.iter().any(|l| *l == Some(0)) {
+            return "gt-ploidy-0".into();
+        }
+        let present: Vec<usize> = lens.iter().flatten().copied().collect();
+        if present.windows(2).any(|w| w[0] != w[1]) {
+            return "gt-mixed-ploidy".into();
+        }
+        let phased_missing = r.samples.iter().any(|s| match s.first() {
+            Some(Some(Val::Gt(a))) => a.iter().any(|x| x.0.is_none() && x.1),
+            _ => false,
+        });
+        if phased_missing {
+            return "gt-missing-allele-phased".into();
+        }
+    }
+    for (j, k) in r.format.iter().enumerate() {
+        if k == "GT" {
+            continue;
+        }
+        if let Some(d) = hdr.format(k) {
+            let all_missing = r.samples.iter().all(|s| s.get(j).cloned().flatten().is_none());
+            if all_missing && d.ty == gvcf::Ty::Integer && !d.num.is_scalar() && !r.samples.is_empty() {
+                return "format-int-vector-column-all-missing".into();
+            }
+        }
+    }
+    for s in SUSPECT {
+        if g.shapes.iter().any(|x| x.1 == s) {
+            return s.to_string();
+        }
+    }
+    "other".into()
+}
+
+fn structural(hint: &str) -> bool {
+    hint.starts_with("gt-") || hint.starts_with("format-int-vector")
+}
+
+/// Fingerprint words for a value difference.
+fn diff_fp(stage: &str, d: &gvcf::cmp::Diff, g: &Generated, hint: &str) -> String {
+    if structural(hint) || (hint == "gt-missing-allele-phased" && d.kind == "genotype") {
+        return format!("stage={stage} symptom=value-differs cause={hint}");
+    }
+    // among the shapes recorded for the differing key prefer a suspect one (several deviations may
+    // touch the same column: a value, a per-sample override, another sample's genotype)
+    let of_key: Vec<&'static str> = g.shapes.iter().filter(|x| x.0 == d.key).map(|x| x.1).collect();
+    let mut shape: &str = SUSPECT.iter().copied().find(|s| of_key.contains(s)).unwrap_or_else(|| of_key.last().copied().unwrap_or("base"));
+    if shape == "base" && d.key.starts_with("sample:") {
+        shape = g.shape_of("sample:*");
+    }
+    let shape = if ["base", "neighbour", "sample-value-missing", "unequal-per-sample"].contains(&shape) && hint != "other" {
+        hint.to_string()
+    } else {
+        shape.to_string()
+    };
+    format!("stage={stage} {} shape={shape}", d.fp())
+}
+
+/// All checks for one generated record under one header.
+fn check_bcf(t: &dyn Tagger, hdr: &Hdr, header: &vcf::Header, g: &Generated, decoded: &dyn Fn() -> String) -> Outcome {
+    match check_bcf_inner(t, hdr, header, g, decoded) {
+        Err(v) if matches!(g.expect, Expect::Unjudged(_)) && !v.fingerprint.contains("outcome=panic") => {
+            t.tag("not-a-vcf-value-divergence-not-judged");
+            Ok(())
+        }
+        r => r,
+    }
+}
+
+fn check_bcf_inner(t: &dyn Tagger, hdr: &Hdr, header: &vcf::Header, g: &Generated, decoded: &dyn Fn() -> String) -> Outcome {
+    let rb = g.rec.to_record_buf();
+    let hint = cause_hint(g, hdr);
+    let all_shapes = hint.as_str();
+    let has_reserved_nan = {
+        let f = |v: &Option<Val>| match v {
+            Some(Val::Float(b)) => gvcf::cmp::is_reserved_nan(*b),
+            Some(Val::FloatA(a)) => a.iter().flatten().any(|b| gvcf::cmp::is_reserved_nan(*b)),
+            _ => false,
+        };
+        g.rec.info.iter().any(|(_, v)| f(v)) || g.rec.samples.iter().flatten().any(f)
+    };
+
+    // (0) write
+    let bytes = match io::bcf_write(header, std::slice::from_ref(&rb)) {
+        Ok(b) => b,
+        Err(f @ Fail::Panic { .. }) => {
+            return Err(Violation::new(
+                format!("stage=write {}", f.panic_fp()),
+                decoded(),
+                "Ok or Err (a value BCF cannot represent is an error)",
+                f.text(),
+            ));
+        }
+        Err(Fail::Err(_)) => {
+            // "any record the writer accepts": a rejection is always within the statement
+            t.tag("writer-rejected");
+            return Ok(());
+        }
+    };
+    t.tag("writer-accepted");
+    let dec = || format!("{} → BCF record bytes {}", decoded(), vmc::hex(&bytes[bytes.len().saturating_sub(96)..]));
+
+    // (1) independent raw parse
+    let stream = match bcfraw::parse_stream(&bytes) {
+        Ok(s) => s,
+        Err(e) => {
+            return Err(Violation::new(
+                format!("stage=raw symptom=malformed-record cause={all_shapes}"),
+                dec(),
+                "a well-formed BCF2 record (l_shared/l_indiv consumed exactly by the typed values)",
+                e,
+            ));
+        }
+    };
+    if stream.records.len() != 1 {
+        return Err(Violation::new("stage=raw symptom=record-count", dec(), "1 record", format!("{}", stream.records.len())));
+    }
+    let dict_text = bcfraw::dict_from_text(&stream.header_text);
+    let dict_model = bcfraw::dict_from_model(hdr);
+    let dict = match (&dict_text, &dict_model) {
+        (Ok(a), Ok(b)) => {
+            if a != b {
+                return Err(Violation::new(
+                    "stage=raw symptom=dictionary-differs what=embedded-header-text-vs-header-IDX",
+                    format!("{} → embedded header text {:?}", decoded(), stream.header_text),
+                    format!("dictionary the header value defines (IDX honoured): strings {:?} contigs {:?}", b.strings, b.contigs),
+                    format!("dictionary of the embedded text: strings {:?} contigs {:?}", a.strings, a.contigs),
+                ));
+            }
+            a.clone()
+        }
+        (Err(e), _) | (_, Err(e)) => vmc::machinery(format!("dictionary computation failed: {e}")),
+    };
+    let raw = &stream.records[0];
+    match bcfraw::decode(raw, &dict, hdr) {
+        Ok(got) => {
+            if let Some(d) = diff_rec(&g.rec, &got, FloatMode::BitsReservedLenient) {
+                return Err(Violation::new(
+                    diff_fp("raw", &d, g, &hint),
+                    dec(),
+                    "the bytes decode (by the specification) to the value written",
+                    d.detail,
+                ));
+            }
+        }
+        Err(e) => {
+            return Err(Violation::new(
+                format!("stage=raw symptom=malformed-record cause={all_shapes}"),
+                dec(),
+                "the bytes decode (by the specification) to the value written",
+                e,
+            ));
+        }
+    }
+    // typed descriptor widths: sufficiency is implied by the decode above (a value in a sentinel slot
+    // decodes to something else); minimality is recorded, not judged
+    for (_, v) in &raw.info {
+        if let Some(els) = v.vec.ints() {
+            let need = bcfraw::min_int_width(els.iter().filter_map(|e| if let IntEl::Value(x) = e { Some(*x) } else { None }));
+            if v.vec.width() > need {
+                t.tag("int-width-not-minimal");
+            } else {
+                t.tag("int-width-minimal");
+            }
+        }
+        if v.long_len {
+            t.tag("descriptor-long-length");
+        }
+    }
+    for c in &raw.fmt {
+        if c.long_len {
+            t.tag("descriptor-long-length");
+        }
+        if matches!(c.per_sample.first(), Some(RawVec::I16(_))) {
+            t.tag("format-int16");
+        }
+        if matches!(c.per_sample.first(), Some(RawVec::I32(_))) {
+            t.tag("format-int32");
+        }
+    }
+
+    // (2) noodles' eager reader, with the header the reader returns
+    let (h_read, back) = match io::bcf_read(&bytes, 1) {
+        Ok((h, mut v)) => {
+            if v.len() != 1 {
+                return Err(Violation::new("stage=read symptom=record-count", dec(), "1 record", format!("{}", v.len())));
+            }
+            (h, v.remove(0))
+        }
+        Err(f) => return Err(fail_violation("read", &f, all_shapes, dec(), "the accepted record reads back")),
+    };
+    let back_model = Rec::from_record_buf(&back);
+    if let Some(d) = diff_rec(&g.rec, &back_model, FloatMode::BitsReservedLenient) {
+        return Err(Violation::new(
+            diff_fp("read", &d, g, &hint),
+            dec(),
+            "read_record_buf(write(r)) == r",
+            d.detail,
+        ));
+    }
+
+    // (3) lazy record
+    let lazy = match io::bcf_read_lazy(&bytes, 1) {
+        Ok((_, mut v)) if v.len() == 1 => v.remove(0),
+        Ok(_) => return Err(Violation::new("stage=lazy symptom=record-count", dec(), "1 record", "≠ 1")),
+        Err(f) => return Err(fail_violation("lazy-read", &f, all_shapes, dec(), "Ok")),
+    };
+    match io::guard(|| Rec::from_variant(&h_read, &lazy)) {
+        Ok(m) => {
+            if let Some(d) = diff_rec(&g.rec, &m, FloatMode::BitsReservedLenient) {
+                return Err(Violation::new(
+                    diff_fp("lazy", &d, g, &hint),
+                    dec(),
+                    "lazy bcf::Record accessors == the value written",
+                    d.detail,
+                ));
+            }
+        }
+        Err(f) => {
+            let cls = match &f {
+                Fail::Err(e) if e.contains("len()=") => "len-differs-from-iter".to_string(),
+                Fail::Err(_) => format!("rejected cause={hint}"),
+                Fail::Panic { .. } => String::new(),
+            };
+            return Err(match &f {
+                Fail::Panic { .. } => fail_violation("lazy-accessors", &f, all_shapes, dec(), "Ok"),
+                Fail::Err(_) => Violation::new(
+                    format!("stage=lazy-accessors symptom=inconsistent what={cls}"),
+                    dec(),
+                    "lazy accessors agree with each other and with the eager record",
+                    f.text(),
+                ),
+            });
+        }
+    }
+    // inherent accessors of the lazy record
+    match io::guard(|| {
+        let id = lazy.reference_sequence_id().map_err(|e| e.to_string())?;
+        let end = lazy.end().map_err(|e| e.to_string())?;
+        Ok((id, end.get()))
+    }) {
+        Ok((id, end)) => {
+            if dict.contigs.get(id).cloned().flatten().as_deref() != Some(g.rec.chrom.as_str()) {
+                return Err(Violation::new("stage=lazy symptom=reference-sequence-id-differs", dec(), g.rec.chrom.clone(), format!("{id}")));
+            }
+            // end() is rlen-based: it must agree with the eager record's variant_end
+            use vcf::variant::Record as _;
+            if let Ok(e2) = back.variant_end(&h_read) {
+                if e2.get() != end {
+                    return Err(Violation::new(
+                        "stage=lazy symptom=end-differs-from-eager-variant-end",
+                        dec(),
+                        format!("{}", e2.get()),
+                        format!("{end}"),
+                    ));
+                }
+            }
+        }
+        Err(f @ Fail::Panic { .. }) => {
+            return Err(Violation::new(
+                format!("stage=lazy-end {}", f.panic_fp()),
+                dec(),
+                "bcf::Record::end() returns Ok or Err",
+                f.text(),
+            ));
+        }
+        Err(Fail::Err(_)) => t.tag("lazy-end-err"),
+    }
+
+    // (4) VCF text of the BCF-read record == VCF text of the original (modulo trailing missing)
+    match io::vcf_write_record(header, &rb) {
+        Ok(_) if has_reserved_nan => t.tag("vcf-text-skipped-reserved-nan"),
+        Ok(orig) => {
+            for (who, out) in [("eager", io::vcf_write_record(&h_read, &back)), ("lazy", io::vcf_write_record(&h_read, &lazy))] {
+                match out {
+                    Ok(txt) => {
+                        if norm_line(&txt) != norm_line(&orig) {
+                            return Err(Violation::new(
+                                format!("stage=vcf-text view={who} symptom=text-differs cause={all_shapes}"),
+                                dec(),
+                                norm_line(&orig),
+                                norm_line(&txt),
+                            ));
+                        }
+                    }
+                    Err(f) => return Err(fail_violation("vcf-text", &f, all_shapes, dec(), "Ok (the original renders)")),
+                }
+            }
+            t.tag("vcf-text-compared");
+        }
+        Err(f @ Fail::Panic { .. }) => return Err(fail_violation("vcf-text-original", &f, all_shapes, dec(), "Ok or Err")),
+        Err(Fail::Err(_)) => t.tag("bcf-accepts-what-vcf-text-rejects"),
+    }
+
+    // (5) the lazy record is itself a variant record: writing it again must give the same value
+    match io::bcf_write_any(&h_read, &lazy) {
+        Ok(b2) => match io::bcf_read(&b2, 1) {
+            Ok((_, v)) if v.len() == 1 => {
+                if let Some(d) = diff_rec(&g.rec, &Rec::from_record_buf(&v[0]), FloatMode::BitsReservedLenient) {
+                    return Err(Violation::new(
+                        diff_fp("reencode-lazy", &d, g, &hint),
+                        dec(),
+                        "read(write(lazy bcf::Record)) == r",
+                        d.detail,
+                    ));
+                }
+                t.tag("reencode-lazy-ok");
+            }
+            Ok(_) => return Err(Violation::new("stage=reencode-lazy symptom=record-count", dec(), "1", "≠ 1")),
+            Err(f) => return Err(fail_violation("reencode-lazy-read", &f, all_shapes, dec(), "the accepted record reads back")),
+        },
+        Err(f @ Fail::Panic { .. }) => return Err(fail_violation("reencode-lazy-write", &f, all_shapes, dec(), "Ok or Err")),
+        Err(Fail::Err(_)) => t.tag("reencode-lazy-rejected"),
+    }
+    if g.expect == Expect::Exact {
+        t.tag("valid-record-round-tripped");
+    }
+    Ok(())
+}
+
+struct Envs {
+    /// [ff][idx mode][n_samples]
+    by: Vec<Vec<Vec<Env>>>,
+}
+
+const IDX_MODES: [IdxMode; 4] = [IdxMode::Implicit, IdxMode::Natural, IdxMode::Permuted, IdxMode::Sparse];
+
+impl Envs {
+    fn new(thorough: bool) -> Self {
+        let by = FILE_FORMATS
+            .iter()
+            .map(|&ff| {
+                IDX_MODES.iter().map(|&m| (0..4).map(|n| Env::new(ff, n, m, Purpose::Bcf, thorough)).collect()).collect()
+            })
+            .collect();
+        Self { by }
+    }
+}
+
+fn generate<'e>(ch: &Chooser, envs: &'e Envs, ffs: &[usize], bases: &[usize], idx_free: bool) -> (usize, usize, &'e Env, Generated) {
+    let fi = if ffs.len() == 1 { ffs[0] } else { *ch.pick_free("fileformat", ffs) };
+    let b = if bases.len() == 1 { bases[0] } else { *ch.pick_free("base", bases) };
+    let mi = if idx_free { ch.free("idx-mode", IDX_MODES.len()) } else { ch.dev("idx-mode", 2) };
+    let env = &envs.by[fi][mi][BASE_SAMPLES[b]];
+    let g = gen_::gen_record(ch, env, b);
+    (b, mi, env, g)
+}
+
+fn record_body(ch: &Chooser, envs: &Envs, ffs: &[usize], bases: &[usize], idx_free: bool) -> Outcome {
+    let (b, mi, env, g) = generate(ch, envs, ffs, bases, idx_free);
+    let describe = |env: &Env, b: usize, mi: usize, g: &Generated| {
+        format!(
+            "fileformat={}.{} header=gvcf::gen_::rich_header(ff,{} samples,{:?}) base={} {}",
+            env.ff.0, env.ff.1, BASE_SAMPLES[b], IDX_MODES[mi], BASE_NAMES[b], g.rec.show()
+        )
+    };
+    let decoded = || describe(env, b, mi, &g);
+    ch.desc(|| format!("{} [{}]", decoded(), g.shapes_str()));
+    let mut r = check_bcf(ch, &env.hdr, &env.header, &g, &decoded);
+    ch.obs_hash((&g.rec, r.is_ok()));
+    for (_, s) in &g.shapes {
+        ch.tag(s);
+    }
+    ch.steps(7);
+    // Attribution: a failing record with several deviations is re-generated with each deviation
+    // alone (all other deviation choices zeroed); if one of those already fails, its fingerprint is
+    // used, so that a class names the deviation that matters and not an innocent companion.
+    if let Err(v) = &mut r {
+        let trace = ch.trace();
+        let devs: Vec<usize> = trace
+            .iter()
+            .enumerate()
+            .filter(|(_, p)| p.class == vmc::Class::Dev && p.taken != 0)
+            .map(|(i, _)| i)
+            .collect();
+        if devs.len() >= 2 {
+            for &keep in &devs {
+                let choices: Vec<u32> = trace
+                    .iter()
+                    .enumerate()
+                    .map(|(i, p)| if p.class == vmc::Class::Dev && i != keep { 0 } else { p.taken })
+                    .collect();
+                let ch2 = Chooser::replaying(&choices);
+                let (b2, mi2, env2, g2) = generate(&ch2, envs, ffs, bases, idx_free);
+                struct Quiet;
+                impl Tagger for Quiet {
+                    fn tag(&self, _: &'static str) {}
+                }
+                let dec2 = || describe(env2, b2, mi2, &g2);
+                if let Err(v1) = check_bcf(&Quiet, &env2.hdr, &env2.header, &g2, &dec2) {
+                    v.fingerprint = v1.fingerprint;
+                    break;
+                }
+            }
+        }
+    }
+    r
+}
+
+// ------------------------------------------------------------------------------------------------
+// E3: integer boundary pairs
+
+const BOUNDARY: [i32; 20] = [
+    i32::MIN + 8,
+    -32761,
+    -32760,
+    -121,
+    -120,
+    -1,
+    0,
+    127,
+    128,
+    32767,
+    32768,
+    i32::MAX,
+    // the reserved values themselves
+    i32::MIN,
+    i32::MIN + 1,
+    i32::MIN + 2,
+    i32::MIN + 3,
+    i32::MIN + 4,
+    i32::MIN + 5,
+    i32::MIN + 6,
+    i32::MIN + 7,
+];
+const N_CTX: u64 = 9;
+const CTX_NAMES: [&str; N_CTX as usize] = [
+    "info-scalar",
+    "info-array-[a,b]",
+    "info-array-[a,.,b]",
+    "format-scalar-s0=a,s1=b",
+    "format-scalar-s0=a,s1=.,s2=b",
+    "format-array-s0=[a,b],s1=[b]",
+    "format-array-s0=[a],s1=[.,b,a]",
+    "format-array-s0=[a,b],s1=.",
+    "info-array-16-elements",
+];
+
+fn pair_case(i: u64) -> (usize, i32, i32, Rec) {
+    let n = BOUNDARY.len() as u64;
+    let ctx = (i / (n * n)) as usize;
+    let a = BOUNDARY[((i / n) % n) as usize];
+    let b = BOUNDARY[(i % n) as usize];
+    let gt = |x: usize| Some(Val::Gt(vec![(Some(0), false), (Some(x), false)]));
+    let mut r = Rec { alts: vec!["C".into()], ..Rec::default() };
+    let two = |r: &mut Rec, key: &str, v0: Option<Val>, v1: Option<Val>| {
+        r.format = vec!["GT".into(), key.into()];
+        r.samples = vec![vec![gt(1), v0], vec![gt(0), v1]];
+    };
+    match ctx {
+        0 => r.info = vec![("XI1".into(), Some(Val::Int(a))), ("XIU".into(), Some(Val::IntA(vec![Some(b)])))],
+        1 => r.info = vec![("XIU".into(), Some(Val::IntA(vec![Some(a), Some(b)])))],
+        2 => r.info = vec![("XIR".into(), Some(Val::IntA(vec![Some(a), None, Some(b)])))],
+        3 => two(&mut r, "YI1", Some(Val::Int(a)), Some(Val::Int(b))),
+        4 => {
+            r.format = vec!["GT".into(), "YI1".into()];
+            r.samples = vec![vec![gt(1), Some(Val::Int(a))], vec![gt(0), None], vec![gt(1), Some(Val::Int(b))]];
+        }
+        5 => two(&mut r, "YIU", Some(Val::IntA(vec![Some(a), Some(b)])), Some(Val::IntA(vec![Some(b)]))),
+        6 => two(&mut r, "YIG", Some(Val::IntA(vec![Some(a)])), Some(Val::IntA(vec![None, Some(b), Some(a)]))),
+        7 => two(&mut r, "YIA", Some(Val::IntA(vec![Some(a), Some(b)])), None),
+        _ => {
+            let mut v: Vec<Option<i32>> = (0..14).map(Some).collect();
+            v.insert(3, Some(a));
+            v.push(Some(b));
+            r.info = vec![("XIU".into(), Some(Val::IntA(v)))];
+        }
+    }
+    (ctx, a, b, r)
+}
+
+fn class_of(v: i32) -> &'static str {
+    if v <= i32::MIN + 7 {
+        "reserved"
+    } else if (-120..=127).contains(&v) {
+        "i8"
+    } else if (-32760..=32767).contains(&v) {
+        "i16"
+    } else {
+        "i32"
+    }
+}
+
 fn main() {
-    println!("MACHINERY-ERROR property=C10 check not built yet");
-    std::process::exit(2);
+    vmc::run("C10", "model_checking", |ctx| {
+        let thorough = ctx.thorough();
+        ctx.rule(
+            "every record within k field deviations of 4 base records (C09 grammar + BCF boundary values), per \
+             fileformat and IDX mode; every (min,max) pair of the 12 integer boundaries and the 8 reserved codes in 9 \
+             vector contexts; distinct = distinct (record, outcome) pairs",
+        );
+        ctx.assume("the harness's BCF2 parser (gvcf::bcfraw, ~400 lines, written from the specification) is correct");
+        ctx.assume("per-sample strings equal to '.' denote a missing value in BCF (how VCF text is carried over)");
+        let envs = Envs::new(thorough);
+        let all_ff: Vec<usize> = (0..FILE_FORMATS.len()).collect();
+        let all_b: Vec<usize> = (0..N_BASES).collect();
+
+        // (1) IDX modes: complete over the four modes
+        ctx.harness(Config::new("bcf_idx_k1", 1), |ch| record_body(ch, &envs, &all_ff, &all_b, true));
+
+        // (2) the grammar
+        if ctx.quick() {
+            ctx.harness(Config::new("bcf_rt_k2_snv_v43", 2), |ch| record_body(ch, &envs, &[1], &[1], false));
+        } else {
+            ctx.harness(Config::new("bcf_rt_k2", 2), |ch| record_body(ch, &envs, &all_ff, &all_b, false));
+        }
+
+        // (3) integer boundary pairs
+        let n = (BOUNDARY.len() * BOUNDARY.len()) as u64 * N_CTX;
+        let env0 = Env::new((4, 3), 0, IdxMode::Implicit, Purpose::Bcf, false);
+        let env2 = Env::new((4, 3), 2, IdxMode::Implicit, Purpose::Bcf, false);
+        let env3 = Env::new((4, 3), 3, IdxMode::Implicit, Purpose::Bcf, false);
+        let stats: Mutex<std::collections::BTreeMap<String, u64>> = Mutex::new(Default::default());
+        struct T<'a>(&'a Mutex<std::collections::BTreeMap<String, u64>>, String);
+        impl Tagger for T<'_> {
+            fn tag(&self, t: &'static str) {
+                if t == "writer-accepted" || t == "writer-rejected" || t.starts_with("int-width") {
+                    *self.0.lock().unwrap().entry(format!("{} {t}", self.1)).or_insert(0) += 1;
+                }
+            }
+        }
+        ctx.sweep(
+            "bcf_int_pairs",
+            n,
+            |i| {
+                let (c, a, b, r) = pair_case(i);
+                format!("context={} a={a} b={b} {}", CTX_NAMES[c], r.show())
+            },
+            |i| {
+                let (c, a, b, rec) = pair_case(i);
+                let env = match rec.samples.len() {
+                    0 => &env0,
+                    3 => &env3,
+                    _ => &env2,
+                };
+                let mut expect = Expect::Exact;
+                if class_of(a) == "reserved" || class_of(b) == "reserved" {
+                    expect = Expect::MayReject("reserved integer");
+                }
+                let key = rec.info.last().map(|x| format!("info:{}", x.0)).unwrap_or_else(|| format!("sample:{}", rec.format[1]));
+                let shape: &'static str = match (class_of(a), class_of(b)) {
+                    ("reserved", _) | (_, "reserved") => "int-reserved",
+                    ("i32", _) | (_, "i32") => "needs-i32",
+                    ("i16", _) | (_, "i16") => "needs-i16",
+                    _ => "fits-i8",
+                };
+                let g = Generated { rec, expect, shapes: vec![(key, shape)] };
+                let dec = || format!("fileformat=4.3 header=gvcf::gen_::rich_header context={} a={a} b={b} {}", CTX_NAMES[c], g.rec.show());
+                let t = T(&stats, format!("{}({},{})", if c < 3 || c == 8 { "info" } else { "format" }, class_of(a), class_of(b)));
+                check_bcf(&t, &env.hdr, &env.header, &g, &dec).map_err(|mut v| {
+                    v.fingerprint = format!("context={} {}", CTX_NAMES[c].split('-').take(2).collect::<Vec<_>>().join("-"), v.fingerprint);
+                    v
+                })
+            },
+        );
+        let st = stats.lock().unwrap();
+        let accepted: u64 = st.iter().filter(|(k, _)| k.ends_with("writer-accepted")).map(|x| *x.1).sum();
+        ctx.add_distinct(accepted, accepted);
+        ctx.extra(
+            "int_pairs_outcomes",
+            vmc::json!(st.iter().map(|(k, v)| (k.clone(), *v)).collect::<std::collections::BTreeMap<String, u64>>()),
+        );
+    });
 }
